@@ -450,6 +450,8 @@ func (p *Plug) Execute(ctx context.Context, req any) (any, *plugins.Error) {
 		return nil, &plugins.Error{Message: "permanent failure of " + path, Permanent: true}
 	case Trans:
 		return nil, &plugins.Error{Message: "transient failure of " + path}
+	case TransZero:
+		return nil, &plugins.Error{}
 	case WrongType:
 		return OtherResp{Bogus: path}, nil
 	case WrongNamed:
